@@ -208,6 +208,9 @@ def observe(case):
         kw['sample_space'] = [pyo(case, o) for o in case['ss']]
     cls = dit.Distribution if case['joint'] else dit.ScalarDistribution
     raw_is_pmf = (abs(sum(raws) - 1) <= 1e-8 + 1e-5 and all(-1e-8 <= x <= 1 + 1e-8 + 1e-5 for x in raws)) if raws and all(map(math.isfinite, raws)) else False
+    if case['base_arg'] is None and base == 'linear' and not raw_is_pmf:
+        # base=None and the values are not a linear pmf: dit reads them as log2-probabilities (documented auto-detection)
+        lins = [lin(2, x) for x in raws]
     res = {'lins': lins, 'raw_is_pmf': raw_is_pmf}
     try:
         if case['form'] == 'dict':
